@@ -1,4 +1,9 @@
-"""C10 - selection limits bound every attainable value and only ever tighten (closed breeding histories)."""
+"""C10 - selection limits bound every attainable value and only ever tighten (closed breeding histories).
+
+Families: hist (mating histories), chain (selection-only, ploidy 1-4), huge (50 000+ founders, rare copies), pool (one
+population object - and its unphased twin - changed in place / copied / re-read between the reads of its limits).  In every
+family one breeding value matrix object per generation is consulted several times (second-and-later reads are judged too).
+"""
 import numpy
 
 from pbmon import boot  # noqa: F401
